@@ -53,7 +53,10 @@ def collect_mutants(props):
         meta = os.path.join(sdir, name, "meta.json")
         patch = os.path.join(sdir, name, "patch.diff")
         if os.path.exists(meta) and os.path.exists(patch):
-            prop = json.load(open(meta)).get("property")
+            info = json.load(open(meta))
+            prop = info.get("property")
+            if info.get("obsolete"):
+                continue        # neutralised by a later repair of /repo, see its meta.json
             if not props or prop in props:
                 out.append((prop, "seeded/" + name, patch))
     return out
